@@ -154,6 +154,20 @@ def cells(tier):
                     cfg = dict(cfg)
                     cfg["id"] = f"{op.name}|{da}|{db or ''}|{k}"
                     out.append(cfg)
+    # conversions / embeddings with scalar keyword values (their exact values are C04's subject; here: the array backends
+    # against the object backend, including integer-typed stored columns next to fractional keyword values)
+    for op in catalog.EXTRA_OPS.values():
+        for da in op.self_dims:
+            cfgs = _configs(op, da, None, 3 if tier == "quick" else 10, salt="conv")
+            SA = R.SYSTEMS[da]
+            hh = zlib.crc32(f"conv{op.name}{da}".encode())
+            for j, ka in enumerate(("np1", "np2", "flat", "jagged")):
+                cfgs.append({"op": op.name, "da": da, "db": None, "ka": ka, "sa": R.sysname(SA[(hh >> (3 * j)) % len(SA)]), "fa": "gm"[(hh >> j) % 2],
+                             "extra": False, "alt": 0, "spa": "generic", "scal": "py", "dtype_a": "i64", "ints": True})
+            for k, cfg in enumerate(cfgs):
+                cfg = dict(cfg)
+                cfg["id"] = f"{op.name}|{da}||conv{k}"
+                out.append(cfg)
     # the operator spellings of add / subtract / scale go through each backend's own ufunc machinery
     for opcall, (base, _) in OPCALLS.items():
         op = OPS[base]
@@ -181,7 +195,7 @@ def examples(cell, tier):
 
 
 def strategy(cell, tier):
-    op = OPS[cell["op"]]
+    op = catalog.get(cell["op"])
     one = opcheck.case_strategy(op, cell["db"], "f64", None)
     return st.tuples(*([one] * lattice.N)).map(list)
 
@@ -208,7 +222,7 @@ def _norm(sk):
 
 
 def check_case(cell, elems, ctx):
-    op = OPS[cell["op"]]
+    op = catalog.get(cell["op"])
     if "order" in op.scalars:
         o0 = elems[0]["s"]["order"]
         for e in elems:
